@@ -687,6 +687,10 @@ func genExprSpec(r *hx.Rng, id int) Spec {
 	var b strings.Builder
 	if !site.oneOnly {
 		nprev := r.Intn(4)
+		if site.name == "job.runs-on" {
+			// a runs-on value that is exactly one ${{ }} is routed to checkOneExpression-like code
+			b.WriteString("r")
+		}
 		b.WriteString(filler(r, s.Style, r.Intn(9), true))
 		for i := 0; i < nprev; i++ {
 			b.WriteString("${{" + ws(r) + cleanExprs[r.Intn(len(cleanExprs))] + ws(r) + "}}")
@@ -1272,7 +1276,7 @@ func shifts(r *hx.Rng, s Spec) []struct {
 			if !site.oneOnly {
 				d := s
 				d.Pad = filler(r, s.Style, k, true)
-				if len(d.Pad) == k && !strings.HasSuffix(d.Pad, "$") && !strings.HasSuffix(d.Pad, " ") {
+				if len(d.Pad) == k && !strings.HasSuffix(d.Pad, " ") && !strings.ContainsAny(d.Pad[len(d.Pad)-1:], "${}") {
 					out = append(out, struct {
 						what   string
 						dl, dc int
@@ -1499,6 +1503,7 @@ func main() {
 	rp := flag.String("replay", "", "replay file")
 	nlex := flag.Int("nlex", 600, "number of lexer-position cases")
 	flag.String("tier", "quick", "tier")
+	repo := flag.String("repo", "", "actionlint source tree (its testdata corpus gets the bounds check)")
 	flag.Parse()
 	if *rp != "" {
 		os.Exit(replay(*rp))
@@ -1581,6 +1586,40 @@ func main() {
 			sum.Samples = append(sum.Samples, map[string]interface{}{"spec": s, "truth": []int{bt.TruthLine, bt.TruthCol}, "reported": base})
 		}
 	}
+	// bounds clause on the repository's own workflow corpus
+	corpus := 0
+	if *repo != "" {
+		for _, dir := range []string{"testdata/examples", "testdata/ok", "testdata/err", "testdata/format"} {
+			files, _ := filepath.Glob(filepath.Join(*repo, dir, "*.y*ml"))
+			sort.Strings(files)
+			for _, f := range files {
+				b, err := os.ReadFile(f)
+				if err != nil {
+					continue
+				}
+				ds, err := lint(string(b))
+				if err != nil {
+					continue
+				}
+				corpus++
+				text := string(b)
+				nl := strings.Count(text, "\n")
+				if !strings.HasSuffix(text, "\n") {
+					nl++
+				}
+				for _, d := range ds {
+					if isYAMLSyntax(d) {
+						continue
+					}
+					if d.Line < 1 || d.Col < 1 || d.Line > nl {
+						fails = append(fails, fail{What: fmt.Sprintf("corpus file %s: diagnostic at %d:%d outside the file (%d lines) or column < 1: %s", filepath.Base(f), d.Line, d.Col, nl, d.Msg),
+							Key: "bounds:corpus:" + dir + "/" + filepath.Base(f), File: text, Got: [][2]int{{d.Line, d.Col}}})
+					}
+				}
+			}
+		}
+	}
+	sum.Extra["corpus_files_bounds_checked"] = corpus
 	for i := 0; i < *nlex; i++ {
 		src := genLexSrc(r)
 		lexTerms = append(lexTerms, lexTerm(src))
